@@ -19,8 +19,9 @@ of the first `i` / `i+1` tokens. Rejection: `scan_unterminated`, `scan_eof_in_ta
 NOT covered by `WF` (the scanner can represent it, the abstract syntax / printer here cannot): the empty unquoted value
 `<p a=>` (only possible as the last attribute directly before `>`), attributes with an empty name (`<p =x>`), close tags with
 attributes, `<br/>` without blank (scanned as tag NAME `br/`; here: `open "br/" [] false`), end tags of raw-text elements
-written in upper case or with inner blanks (`</SCRIPT >` is accepted by the scanner but reported as `/script`; the printer
-writes the lower-case name, blanks before `>` are covered by the layout).
+written with blanks INSIDE the name (`</scr ipt>` is accepted by the scanner and reported with the name `/script`, the
+non-blank characters; the printer never writes blanks inside a name). The end tag of a raw-text element may be written in
+ANY letter case (`</SCRIPT >`): it is recovered exactly as written (name `/SCRIPT`); blanks before `>` are layout.
 
 OBLIGATIONS: HS.RT.scan_printL, HS.RT.scan_print, HS.RT.scan_printL_emb, HS.RT.scan_printL_positions,
 HS.RT.scan_unterminated, HS.RT.scan_eof_in_tag, HS.RT.scan_malformed_comment_start, HS.RT.scan_malformed_comment_body,
@@ -38,8 +39,9 @@ namespace RT
         for a self-closing tag the mark `/` counts as a name); quoted values without their own quote; unquoted values
         non-empty, without blank and `>`, not starting with a quote;
       - after the start tag of a raw-text element (`cfg.textTags`, compared lower-cased): optionally ONE text token that
-        may contain `<` but no closing tag of the element (`hasClose`), then either the end of input or the end tag,
-        written with the lower-cased name (the scanner reports `"/" + lower name`);
+        may contain `<` but no closing tag of the element (`hasClose`), then either the end of input or the end tag
+        `close n'` in ANY spelling with `lower n' = lower (open name)` (`closeNameOK`; no blank, `<`, `>` in `n'`);
+        the scanner reports the name `"/" ++ n'` exactly as written;
     * `canon` — the abstract syntax is unambiguous: an `open` name does not start with `/` (that is `close`), and a
       non-self-closing tag does not end with a value-less attribute `/` (that is the self-closing mark). -/
 def WF (cfg : Cfg) (ts : List Tok) : Bool := wfSeq cfg .normal ts && ts.all canon
@@ -169,7 +171,7 @@ def exCfg : Cfg := ⟨["script".toList, "style".toList]⟩
 
 /-- a mixed sequence: attribute with empty quoted value, value-less attribute, unquoted value containing `/`, quoted value
     containing `>` and the other quote, self-closing tags, raw-text element (upper-case start tag) whose text contains `<b`,
-    `</scr` and `</script x`, CDATA containing `>` and ending in `]]`, comment containing `--`, empty raw-text element -/
+    `</scr` and `</script x` and whose end tag is written `</scRIPT>`, CDATA containing `>` and ending in `]]`, comment containing `--`, empty raw-text element -/
 def exTs : List Tok :=
   [ .open "div".toList [⟨"id".toList, some (.dq, [])⟩, ⟨"hidden".toList, none⟩, ⟨"x".toList, some (.bare, "a/b".toList)⟩,
                          ⟨"t".toList, some (.sq, "a>\"b".toList)⟩] false,
@@ -178,7 +180,7 @@ def exTs : List Tok :=
     .open "img".toList [⟨"src".toList, some (.dq, "a b".toList)⟩] true,
     .open "Script".toList [⟨"defer".toList, none⟩] false,
     .text "if (a<b && c>d) {} </scr <b </script x".toList,
-    .close "script".toList,
+    .close "scRIPT".toList,
     .cdata "a>b]]".toList,
     .comment " c -- d ".toList,
     .open "style".toList [] false,
@@ -189,7 +191,7 @@ def exTs : List Tok :=
 example : WF exCfg exTs = true := by decide +kernel
 
 /-- and the conclusion, computed: `print exTs` =
-    `<div id="" hidden x=a/b t='a>"b'>hi⏎⇥there <br /><img src="a b" /><Script defer>if (a<b && c>d) {} </scr <b </script x</script><![CDATA[a>b]]]]><!-- c -- d --><style></style></div>` -/
+    `<div id="" hidden x=a/b t='a>"b'>hi⏎⇥there <br /><img src="a b" /><Script defer>if (a<b && c>d) {} </scr <b </script x</scRIPT><![CDATA[a>b]]]]><!-- c -- d --><style></style></div>` -/
 example : (match HS.scan exCfg (print exTs) with
     | .ok r => r.map erase == exTs && r.length == 12
     | .error _ => false) = true := by decide +kernel
@@ -249,9 +251,24 @@ example : WF exCfg [.open "script".toList [] false, .text "a</script >b".toList,
     rt [.open "script".toList [] false, .text "a</script >b".toList, .close "script".toList] =
       some [.open "script".toList [] false, .text ['a'], .close "script".toList, .text ['b'], .close "script".toList] := by
   decide +kernel
-/-- the end tag of a raw-text element is reported in lower case -/
-example : WF exCfg [.open "Script".toList [] false, .close "Script".toList] = false ∧
-    rt [.open "Script".toList [] false, .close "Script".toList] = some [.open "Script".toList [] false, .close "script".toList] := by
+/-- the end tag of a raw-text element is recovered in the letter case in which it was written -/
+example : WF exCfg [.open "Script".toList [] false, .close "Script".toList] = true ∧
+    rt [.open "Script".toList [] false, .close "Script".toList] = some [.open "Script".toList [] false, .close "Script".toList] ∧
+    WF exCfg [.open "script".toList [] false, .text ['x'], .close "SCRIPT".toList] = true ∧
+    rt [.open "script".toList [] false, .text ['x'], .close "SCRIPT".toList] =
+      some [.open "script".toList [] false, .text ['x'], .close "SCRIPT".toList] := by
+  decide +kernel
+/-- in the scanner's own vocabulary: `</Script >` has the tag name `/Script` and the source text `</Script >` -/
+example : (HS.scan exCfg "<script></Script >".toList).toOption.map (List.map forget) =
+    some [⟨.tag, "<script>".toList, some ("script".toList, [])⟩, ⟨.tag, "</Script >".toList, some ("/Script".toList, [])⟩] := by
+  decide +kernel
+/-- an end tag of a different element does not close the raw-text element (not `WF`; it is scanned as text) -/
+example : WF exCfg [.open "script".toList [] false, .close "style".toList] = false ∧
+    rt [.open "script".toList [] false, .close "style".toList] = some [.open "script".toList [] false, .text "</style>".toList] := by
+  decide +kernel
+/-- blanks INSIDE the name of the end tag are not `WF`: the scanner accepts `</scr ipt>` and reports the non-blank characters -/
+example : WF exCfg [.open "script".toList [] false, .close "scr ipt".toList] = false ∧
+    rt [.open "script".toList [] false, .close "scr ipt".toList] = some [.open "script".toList [] false, .close "script".toList] := by
   decide +kernel
 /-- ambiguity of the abstract syntax excluded by `canon` -/
 example : WF exCfg [.open "/p".toList [] false] = false ∧ rt [.open "/p".toList [] false] = some [.close ['p']] := by decide +kernel
